@@ -135,7 +135,7 @@ def device_cases(tier):
         if i < 3:
             for chset in ("eom-RB", "eom-R", "eom-B", "ids-rev", "dmm-rev"):
                 out.append(("vdevice", c, chset))
-    for mod in ("none", "layouts", "layouts-negzero", "noise", "filling", "eom-custom", "no-dmm"):
+    for mod in ("none", "layouts", "layouts-negzero", "layouts-same-slug", "layouts-no-slug", "layouts-listed-twice", "noise", "filling", "eom-custom", "no-dmm"):
         out.append(("device", mod))
     return out
 
@@ -219,6 +219,19 @@ def check_device(mod):
 
         lay = RegisterLayout([(-0.0, 0.0), (6.0, -1e-9), (-3e-16, 6.0), (6.0, 6.0), (12.0, 0.0), (12.0, 6.0)], slug="nz")
         dev = dataclasses.replace(base, pre_calibrated_layouts=(lay,))
+    elif mod in ("layouts-same-slug", "layouts-no-slug", "layouts-listed-twice"):
+        # slugs are optional labels, nothing requires them to be unique; the same layout may be listed twice
+        from pulser.register.register_layout import RegisterLayout
+
+        sq = [(6.0 * i, 6.0 * j) for i in range(3) for j in range(3)]
+        tri = [(0.0, 0.0), (7.0, 0.0), (3.5, 6.0), (10.5, 6.0), (14.0, 0.0), (7.0, 12.0)]
+        if mod == "layouts-same-slug":
+            lays = (RegisterLayout(sq, slug="calibrated"), RegisterLayout(tri, slug="calibrated"))
+        elif mod == "layouts-no-slug":
+            lays = (RegisterLayout(sq), RegisterLayout(tri))
+        else:
+            lays = (RegisterLayout(sq, slug="a"), RegisterLayout(sq, slug="a"), RegisterLayout(tri))
+        dev = dataclasses.replace(base, pre_calibrated_layouts=lays)
     elif mod == "noise":
         from pulser.noise_model import NoiseModel
 
